@@ -58,21 +58,39 @@ THEOREMS = [
     "C04_activation_value_refused",
 ]
 RULE = (
-    "ordered pairs of REAL hint objects from the grammar cls | None | X|Y | Union/Optional | Literal | Annotated | "
-    "list/set/dict/tuple[...]/tuple[X, ...]/tuple[()]/type/Callable generics over the class lattice "
+    "(1) pair cases: ordered pairs of REAL hint objects from the grammar cls | None | X|Y | Union/Optional | Literal | "
+    "Annotated | list/set/dict/tuple[...]/tuple[X, ...]/tuple[()]/type/Callable generics over the class lattice "
     "object, int>bool, float, str, list, set, frozenset, dict, tuple, type, NoneType, Callable, A>B>C, D; "
     "quick: ~2500 pairs = exhaustive-depth-1 sample + random depth<=2 + related pairs (input derived from the output "
     "by generalising steps, so that accepted pairs are frequent); thorough: ALL ordered pairs of the depth<=1 "
     "enumeration over the small alphabet + 65000 random/related pairs to depth 3. Each pair: comparison both ways of "
-    "reflexivity, real Channel.connect / value_receiver, and valid_value of a witness pool (>=6 values incl. near "
-    "misses) against both hints; half of the random pairs come from the restricted grammar on which no failure is "
-    "excusable. non-trivial = the comparison answered and at least one side is not a bare class"
+    "reflexivity, valid_value of a witness pool (>=6 values incl. near misses) against both hints, and the ACCEPTANCE "
+    "GATE on bare channels for every initiator (out.connect(inp), inp.connect(out), value_receiver between two inputs, "
+    "between two outputs) x sender strict_hints x receiver strict_hints, plus the three other hint presences (28 gate "
+    "evaluations per pair); half of the random pairs come from the restricted grammar on which no failure is "
+    "excusable. (2) gate cases on REAL nodes in a Workflow (function nodes / macros whose annotations are the "
+    "generated hints): 17 API paths (connect from either side, IO-panel assignment of a channel / of a node, "
+    "set_input_values keyword, run keyword, constructor keyword, copy_connections from either side, replace_child of "
+    "the receiving / the sending node, value_receiver in->in / out->out, macro construction links in and out, "
+    "macro.replace_child re-linking in and out) x sender flag x receiver flag x hint presence x how the flag was "
+    "switched (channel, node, IO panel, parent workflow) x a value held by the sender when the link is made x up to 5 "
+    "later steps (flag toggles on either side, witness values pushed through the link, the link asked for again); "
+    "quick: every via x flags with one incompatible and one compatible hand-picked pair + presence block + 450 random "
+    "(~650); thorough: the full cross product with 12+11 pairs and 4 switch mechanisms + 7000 random. "
+    "non-trivial = the comparison answered and at least one side is not a bare class (pairs); both hinted and the link "
+    "attempt answered ok/refused (gate cases)"
 )
 TRUSTED = [
     "Model/Hint.lean transcribes type_hint_is_as_or_more_specific_than / type_hint_to_tuple / _get_type_hints / "
     "valid_value and typeguard 4.4.2's checkers (FIRST_ITEM collection strategy, check_literal's index-then-type "
     "test, check_number, check_set, check_class, check_callable's arity test); validated on every generated pair "
     "and witness",
+    "Model/HintGate.lean transcribes DataChannel._valid_connection (_both_typed, _figure_out_who_is_who, the INPUT's "
+    "strict_hints), the value_receiver setter (the PARTNER's strict_hints, then the push of the current value), "
+    "Channel.connect's already-connected shortcut, _type_check_new_value and the order of checks in the value setters; "
+    "validated on every gate evaluation and every history step",
+    "the mapping of the 17 API paths onto the four mechanisms oc/ic/ri/ro (c04.GATE_VIAS), validated by the "
+    "correspondence of every gate case",
     "the abstraction hint object -> model term uses only typing.get_origin/get_args/isinstance (c04.abstract)",
     "RecursionError under a lowered recursion limit stands for non-termination (model: no answer for any fuel)",
 ]
@@ -81,6 +99,13 @@ ASSUMPTIONS = [
     "hints) are out of scope",
     "Literal[...] listing both 1 and True (or 0 and False) is rejected by typeguard itself for one of them; such "
     "hints appear only in the corpus (known finding KF-C04-5)",
+    "strict_hints is read as the documented opt-out of the RECEIVING channel: a link accepted while the receiver's "
+    "flag is off is outside the guarantee (also after the flag is switched on again: connections are not re-validated, "
+    "values are then refused one by one - theorem C04_activation_not_rechecked); the sender's flag and the identity of "
+    "the initiator never waive it",
+    "histories have one link at a time between the two observed channels; value-link chains of more than one hop, "
+    "several data-carrying connections into one input (fetch priority) and a type_hint attribute re-assigned after "
+    "linking are not explored",
 ]
 EXHAUSTIVE = {"quick": False, "thorough": True}
 EXPLANATION = (
